@@ -46,13 +46,15 @@ LEVEL = "model_checking"
 ENGINE = "E2-BFS"
 SHARDS = {"quick": 16, "thorough": 16}
 RULE = (
-    "BFS over histories (quick: depth 2 on 6 configurations + depth 3 with a 14-event last-call menu on one; thorough: "
-    "depth 3 with the full menu on one configuration, depth 3 with the 14-event last-call menu on 8, depth 2 on 6) of calls from "
-    "a 41-event menu {unary ok/None/void/error/logs, produce x out{is,dict,empty} x client policy{release,keep,"
-    "alternate,late}, header+logs, mid-stream raise, take-k then close/cancel, exchange ok/raise/cancel/castable/"
-    "dictionary/rejected input, request via shm pointer, release-oldest-kept} over segment data sizes "
-    "{1, 1000, 9000, 65536 (+4 MiB thorough)} x SHM_MIN_BATCH_BYTES {0, 1, T}; every single-call history also over "
-    "real OS pipes; non-trivial = distinct (allocation table, kept batches) state reached"
+    "BFS over call histories drawn from a 41-event menu {unary ok/None/void/error+logs, produce x out{is,dict,empty} "
+    "x client policy{release,keep,alternate,late}, header+logs, mid-stream raise, take-k then close/cancel, init "
+    "error, exchange ok/raise/cancel/header/null/castable/dictionary/rejected input, request via shm pointer "
+    "(unary ok/error, produce), release-oldest-kept}; configurations = segment data bytes {1,1000,9000,65536 "
+    "(+4 MiB thorough)} x SHM_MIN_BATCH_BYTES {1,0,T=32}.  quick: 6 configurations (all sizes at threshold 1, size "
+    "9000 at all thresholds) depth 2, size 9000/threshold 1 depth 3 with a 14-event menu for the third call; "
+    "thorough: all 15 configurations, depth 3 with the full menu on 9000/1, depth 3 with the 14-event third-call "
+    "menu on sizes 1000..65536, depth 2 on sizes 1 and 4 MiB; every single-call history also over real OS pipes "
+    "(2 / 4 configurations); non-trivial = distinct (allocation table, kept batches) state reached"
 )
 TECHNIQUE = "explicit-state BFS over call histories on the real client/server/ShmSegment, differential against inline transfer, region accounting from the raw header"
 LEVEL_TEXT = (
@@ -62,9 +64,10 @@ LEVEL_TEXT = (
     "test scenario visits once."
 )
 LEVEL_NOTE = (
-    "Bounded: menu of 40 calls, depth <=3, 4-5 segment sizes, 3 thresholds; states are merged on (table, kept "
+    "Bounded: menu of 41 events, depth <=3 (third call partly from a 14-event menu), 4-5 segment sizes, 3 thresholds; states are merged on (table, kept "
     "batches).  The free-running server thread is synchronised only by the lockstep protocol (deterministic: the "
-    "client observes the table after the response/EOS that the server writes after its last free)."
+    "client observes the table after the response/EOS that the server writes after its last free).  Evaluation "
+    "counts depend on the number of shards (each shard deduplicates states on its own), not on the seed."
 )
 ASSUMPTIONS = [
     "a completed call leaves no connection state other than the segment's allocation table (basis of the state merge)",
